@@ -1,8 +1,9 @@
 --------------------------- MODULE MC_TypeRules ---------------------------
 (***************************************************************************)
 (* Gen + model checking + case emission for C07 (TLC only).  The matrix is *)
-(* finite, so every cell is an initial state; the invariants are evaluated *)
-(* once per cell: Agree (A |= R) and Emit (one CASE line for the replay).  *)
+(* finite: every cell is a state (the successor of the seed of its part);  *)
+(* the invariants are evaluated once per cell: Agree (A |= R) and Emit     *)
+(* (one CASE line for the replay).                                         *)
 (***************************************************************************)
 EXTENDS TypeRules, TLC, Json, SequencesExt
 
@@ -45,7 +46,8 @@ Operand == {<<t, 0>> : t \in PrimT \cup {ARR, SLICE, STRUCT, WORD}} \cup {<<PTR,
             \cup (IF Thorough THEN {<<t, 0>> : t \in {Arr("3", U8), Slice(U8), <<"word", "W2">>}} \cup {<<Ptr(Bool), 1>>, <<Ptr(Bool), 0>>, <<PPTR, 2>>, <<PPTR, 1>>}
                   ELSE {})
 
-Cell(ctx, op, a, ka, b, kb) == [ctx |-> ctx, op |-> op, a |-> a, ka |-> ka, b |-> b, kb |-> kb, x |-> "direct", y |-> "top"]
+Cell(ctx, op, a, ka, b, kb) == [ctx |-> ctx, op |-> op, a |-> a, ka |-> ka, b |-> b, kb |-> kb, x |-> "direct", y |-> "top",
+                                 fa |-> "var", fb |-> "var", pre |-> "none", v |-> ""]
 InCtx(cell, x, y) == [cell EXCEPT !.x = x, !.y = y]
 
 (***************************************************************************)
@@ -107,35 +109,195 @@ NestParams == {Slice(Arr("3", I32)), SPtr(Arr("3", I32)), Ptr(NEST("3")), Ptr(Ar
 NestCells ==
     {Cell(k, "", s, ks, d, 0) : k \in {"arg", "arg2"}, s \in {NEST("3"), NEST("4"), Arr("4", I32), ARR}, ks \in 0..1, d \in NestParams}
 
-Cells ==
-    NestCells \cup
-    {Cell("bin", op, x[1], x[2], y[1], y[2]) : op \in BinOps \ {"adv"}, x \in Operand, y \in Operand}
-    \cup {Cell("cmp", op, x[1], x[2], y[1], y[2]) : op \in CmpOps, x \in Operand, y \in Operand}
-    \cup {Cell("un", op, x[1], x[2], <<>>, 0) : op \in UnOps, x \in Operand}
-    \cup {Cell("as", "", x[1], x[2], t, 0) : x \in Operand, t \in CastTargets}
-    \cup {Cell("cast", "", x[1], x[2], t, 0) : x \in Operand, t \in CastTargets}
-    \cup {Cell("assign", "", x[1], x[2], d, kd) : x \in {y \in SrcShapes \X (0..2) : SrcOK("assign", y[1], y[2])}, d \in VarShapes, kd \in 0..1}
-    \cup {Cell("init", "", x[1], x[2], d, 0) : x \in {y \in SrcShapes \X (0..2) : SrcOK("init", y[1], y[2])}, d \in VarShapes \cup {PPTR}}
-    \cup {Cell("member", "", x[1], x[2], d, 0) : x \in {y \in SrcShapes \X (0..1) : SrcOK("member", y[1], y[2])},
-                                                  d \in PrimT \cup {PTR, ARR, STRUCT, WORD}}
-    \cup {Cell("const", "", s, 0, d, 0) : s \in PrimT, d \in PrimT}
-    \cup {Cell("elem", "", s, 0, d, 0) : s \in PrimT, d \in PrimT}
-    \cup {Cell("arg", "", s, ks, d, 0) : s \in SrcShapes, ks \in 0..2, d \in ParamShapes}
-    \cup {Cell("arg2", "", s, ks, d, 0) : s \in VarShapes, ks \in 0..1, d \in ParamShapes}
-    \cup {Cell(k, "", s, 3, d, 0) : k \in {"arg", "arg2"}, s \in {SPTR, PTR, PPTR}, d \in ParamShapes}
-    \cup {Cell("arg2", "", SPTR, ks, d, 0) : ks \in 1..2, d \in ParamShapes}
-    \cup {Cell("argn", "", <<>>, n, <<>>, m) : n \in 0..3, m \in 0..2}
-    \cup {Cell("ret", "", x[1], x[2], d, 0) : x \in {y \in SrcShapes \X (0..2) : SrcOK("ret", y[1], y[2])}, d \in RetShapes}
-    \cup ContextCells
-    \cup PathAssign
+(***************************************************************************)
+(* Dimension audit (docs/notes-types.md "Dimension audit").  More fields   *)
+(* that the judgement ignores; each is a dimension of the GENERATOR only.  *)
+(***************************************************************************)
+\* --- fa / fb: the syntactic form of an operand ----------------------------------------------------
+\* a call without / with arguments, a cast, a named constant, an element of an array / of an array of arrays /
+\* of a view parameter, a member / a member of a member / a member through a pointer parameter, a suffixed
+\* literal, a parenthesised variable, `|x|`, `|:T|`
+AllForms == {"call", "callarg", "cast", "const", "elem", "elem2", "velem", "mem", "mem2", "pmem", "lit", "paren", "len", "sizeof"}
+FormOK(f, t) == CASE f \in {"len", "sizeof"} -> t = P("usize")
+                  [] f = "cast" -> IsInt(t)
+                  [] OTHER -> IsPrim(t)
+FT == {I32, U8, P("usize"), Bool}
+TwoOperand == {"bin", "cmp", "elem"}
+FormBase ==
+    {Cell("bin", op, t, 0, u, 0) : op \in {"+", "&"}, t \in FT, u \in FT}
+    \cup {Cell("cmp", op, t, 0, u, 0) : op \in {"==", "<"}, t \in FT, u \in FT}
+    \cup {Cell("elem", "", t, 0, u, 0) : t \in FT, u \in FT}
+    \cup {Cell("un", op, t, 0, <<>>, 0) : op \in UnOps, t \in FT}
+    \cup {Cell(k, "", t, 0, u, 0) : k \in {"as", "assign", "init", "member", "arg", "arg2", "ret"}, t \in FT, u \in FT}
+\* (`-7u8` is a negative literal, not a negation: no literal operand of a unary operator)
+FormCellOK(cl, f) == ~(cl.ctx = "un" /\ f = "lit")
+FormCells ==
+    {[q[1] EXCEPT !.fa = q[2]] : q \in {p \in FormBase \X AllForms : FormOK(p[2], p[1].a) /\ FormCellOK(p[1], p[2])}}
+    \cup {[q[1] EXCEPT !.fb = q[2]] : q \in {p \in {r \in FormBase : r.ctx \in TwoOperand} \X AllForms : FormOK(p[2], p[1].b)}}
+    \cup {[q[1] EXCEPT !.fa = q[2], !.fb = q[2]] :
+              q \in {p \in {r \in FormBase : r.ctx \in TwoOperand} \X AllForms : FormOK(p[2], p[1].a) /\ FormOK(p[2], p[1].b)}}
 
-Init == c \in Cells
-Next == UNCHANGED c
+\* --- pre: a second unit next to the construct -------------------------------------------------------
+\* s_call       a well-typed call statement (two arguments) before the construct
+\* s_bad        an independent ill-typed statement (`var q0: i64 = w1 + w2;`, w2: u16) before the construct
+\* s_bad_after  ... after it
+\* f_ok         a function with a well-typed body and a return value before the function of the construct
+\* f_badstmt    a function whose body holds the ill-typed statement, before
+\* f_badret     a function whose return value has the wrong type, before
+\* f_bad_after  the function with the ill-typed statement AFTER the function of the construct
+Pres == {"s_call", "s_bad", "s_bad_after", "f_ok", "f_badstmt", "f_badret", "f_bad_after"}
+PreCell(p) == CASE p \in {"s_bad", "s_bad_after", "f_badstmt", "f_bad_after"} -> Cell("bin", "+", P("i64"), 0, P("u16"), 0)
+                [] p = "f_badret" -> Cell("ret", "", P("i64"), 0, P("u16"), 0)
+                [] OTHER -> Cell("bin", "+", P("i64"), 0, P("i64"), 0)          \* the well-typed neighbours
+PreBase == {r \in Reduced : r.ctx \notin {"bin", "cmp"} \/ r.op \in {"+", "&", "==", "<"}}
+PreCells == {[q[1] EXCEPT !.pre = q[2]] : q \in PreBase \X Pres}
 
-Agree == AgreeOn(c)
+\* --- v: which argument, what kind of callee ---------------------------------------------------------
+\* "n:i": the argument described by the cell is the i-th of n (the others fit their parameters of types u8, bool,
+\* i64, usize); ":tl" / ":tr": the callee is called twice in one statement (`callee(..) + callee(..)`), the call
+\* with the described argument on the left / on the right, the other call is correct
+Positions == {"2:1", "3:1", "3:2", "3:3", "4:2", "4:3", "3:2:tl", "3:2:tr", "2:1:tl", "2:2:tr"}
+PosCells == {[Cell("argp", "", s, ks, d, 0) EXCEPT !.v = pos] :
+                 pos \in Positions, s \in {I32, U8, Bool, PTR, ARR}, ks \in 0..1, d \in {I32, U8, PTR, SLICE, STRUCT}}
+\* the callee is a head (all other cells), a function with a body before / after its caller, `pub`, `extern`
+\* (extern signatures: features.md allows pointers and the primitive types up to 64 bits)
+CalleeKinds == {"body_before", "body_after", "pub", "extern"}
+CalleeCells == {[q[1] EXCEPT !.v = q[2]] :
+                    q \in {p \in {r \in Reduced : r.ctx \in {"arg", "arg2", "argn"}} \X CalleeKinds :
+                               p[2] = "extern" => (p[1].ctx = "argn" \/ p[1].b \in {I32, U8, PTR})}}
 
-Emit == LET v == Verdict(c)
+\* --- words of every size (features.md: word8 .. word128) as operands, values, by-value parameters ---
+W8 == <<"word", "W8">>   W16 == <<"word", "W16">>   W64 == <<"word", "W2">>   W128 == <<"word", "W128">>
+Words == {W8, W16, WORD, W64, W128}
+SameSize(w) == CASE w = W8 -> U8 [] w = W16 -> P("u16") [] w = WORD -> I32 [] w = W64 -> P("u64") [] w = W128 -> P("u128")
+NextWord(w) == CASE w = W8 -> W16 [] w = W16 -> WORD [] w = WORD -> W64 [] w = W64 -> W128 [] w = W128 -> W8
+Partners(w) == {w, NextWord(w), SameSize(w), STRUCT}
+WordCells ==
+    UNION {{Cell("bin", op, w, 0, o, 0) : op \in BinOps \ {"adv"}, o \in Partners(w)}
+           \cup {Cell("bin", op, o, 0, w, 0) : op \in {"+", "&", "<<"}, o \in Partners(w)}
+           \cup {Cell("cmp", op, w, 0, o, 0) : op \in CmpOps, o \in Partners(w)}
+           \cup {Cell("cmp", op, o, 0, w, 0) : op \in {"==", "<"}, o \in Partners(w)}
+           \cup {Cell("un", op, w, 0, <<>>, 0) : op \in UnOps}
+           \cup {Cell(k, "", w, 0, o, 0) : k \in {"as", "cast", "init", "assign", "arg", "arg2", "ret", "member", "elem"}, o \in Partners(w) \ {STRUCT}}
+           \cup {Cell(k, "", o, 0, w, 0) : k \in {"as", "cast", "init", "assign", "arg", "arg2", "ret", "member"}, o \in Partners(w) \ {STRUCT, w}}
+           : w \in Words}
+
+\* --- array lengths written as named constants ------------------------------------------------------
+\* "len:X:Y": the lengths 3 / 4 in the types on the a side are written X, on the b side Y (lit = the number,
+\* N = N3 / N4, M = M3 / M4; all four constants have the value their name says).  The type terms carry the VALUE:
+\* `[N3]i32` is `[3]i32`, `[N4]i32` is not.
+Spellings == {"len:N:lit", "len:lit:N", "len:N:N", "len:N:M", "len:M:N"}
+ARR4 == Arr("4", I32)
+LenSrc == {ARR, ARR4, NEST("3"), NEST("4")}
+LenCells ==
+    {[Cell(k, "", s, 1, d, 0) EXCEPT !.v = sp] : k \in {"arg", "arg2"}, s \in LenSrc, sp \in Spellings,
+                                                d \in {Ptr(ARR), Ptr(ARR4), SPTR, Ptr(NEST("3")), SPtr(ARR)}}
+    \cup {[Cell(k, "", s, 0, d, 0) EXCEPT !.v = sp] : k \in {"arg", "arg2"}, s \in LenSrc, sp \in Spellings, d \in {SLICE, Slice(ARR)}}
+    \cup {[Cell(k, "", s, 1, d, 0) EXCEPT !.v = sp] : k \in {"init", "ret"}, s \in LenSrc, sp \in Spellings, d \in {Ptr(ARR), Ptr(ARR4), Ptr(NEST("3"))}}
+    \cup {[Cell("assign", "", s, 1, d, 1) EXCEPT !.v = sp] : s \in LenSrc, sp \in Spellings, d \in {Ptr(ARR), Ptr(ARR4), Ptr(NEST("3"))}}
+
+\* --- arrays of pointers, pointers to arrays of arrays, pointers to pointers / structs / words -------
+APTR    == Arr("2", PTR)
+PNEST   == Ptr(NEST("3"))
+PSTRUCT == Ptr(STRUCT)
+PWORD   == Ptr(WORD)
+Shapes2 == {APTR, PNEST, PPTR, PSTRUCT, PWORD}
+Operand2 == {<<APTR, 0>>, <<PNEST, 1>>, <<PPTR, 2>>, <<PPTR, 1>>, <<PPTR, 0>>, <<PSTRUCT, 1>>, <<PWORD, 1>>}
+ShapeCells ==
+    {Cell("cmp", op, x[1], x[2], y[1], y[2]) : op \in {"==", "<"}, x \in Operand2, y \in Operand \cup Operand2}
+    \cup {Cell("cmp", op, y[1], y[2], x[1], x[2]) : op \in {"==", "<"}, x \in Operand2, y \in Operand}
+    \cup {Cell("init", "", s, ks, d, 0) : s \in Shapes2, ks \in 0..2, d \in Shapes2 \cup {PTR, ARR, I32}}
+    \cup {Cell("assign", "", s, ks, d, kd) : s \in Shapes2, ks \in 0..2, d \in Shapes2 \cup {PTR, I32}, kd \in 0..1}
+    \cup {Cell(k, "", s, ks, d, 0) : k \in {"arg", "arg2"}, s \in Shapes2, ks \in 0..2, d \in (Shapes2 \ {APTR}) \cup {PTR, I32, Slice(PTR)}}
+    \cup {Cell("ret", "", s, ks, d, 0) : s \in Shapes2, ks \in 0..2, d \in (Shapes2 \ {APTR}) \cup {PTR, I32}}
+
+\* --- every NUMBER is a dimension: array lengths that agree modulo 2^8 / 2^16 are different lengths ---------------
+\* (lengths of 2^32 and more are beyond what the code generator can declare: `fn f(p: &[4294967299]i32);` ends with
+\* a bare "out of range integral type conversion" -- a C02 / C13 matter, see docs/notes-types.md -- so the type
+\* matrix stays below)
+BigPairs == {<<"259", "3">>, <<"65539", "3">>, <<"16777219", "3">>, <<"257", "1">>, <<"256", "255">>, <<"256", "256">>, <<"65539", "65539">>}
+BigLenCells ==
+    UNION {{Cell(k, "", Arr(q[1], I32), 1, Ptr(Arr(q[2], I32)), 0), Cell(k, "", Arr(q[2], I32), 1, Ptr(Arr(q[1], I32)), 0),
+            Cell(k, "", Arr("2", Arr(q[1], I32)), 0, Slice(Arr(q[2], I32)), 0), Cell(k, "", Arr("2", Arr(q[2], I32)), 1, SPtr(Arr(q[1], I32)), 0)}
+           : k \in {"arg", "arg2"}, q \in BigPairs}
+    \cup UNION {{Cell("init", "", Arr(q[1], I32), 1, Ptr(Arr(q[2], I32)), 0), Cell("init", "", Arr(q[2], I32), 1, Ptr(Arr(q[1], I32)), 0),
+                 Cell("assign", "", Arr(q[1], I32), 1, Ptr(Arr(q[2], I32)), 1)} : q \in BigPairs}
+
+\* --- names: the callee is called like a function the code generator declares on its own -----------------------
+CalleeNames == {"name:write", "name:abort", "name:memcpy", "name:snprintf"}
+NameCells == {[q[1] EXCEPT !.v = q[2]] : q \in {r \in Reduced : r.ctx \in {"arg", "arg2", "argn"}} \X CalleeNames}
+
+\* --- flags of the function that holds the construct: `pub fn t`, `extern fn t` (without parameters) ------------
+Local(t) == t = <<>> \/ IsPrim(t) \/ t \in {PTR, ARR}
+FlagCells == {[q[1] EXCEPT !.v = q[2]] : q \in {p \in PreBase \X {"t:pub", "t:extern"} : Local(p[1].a) /\ Local(p[1].b) /\ p[1].ctx # "ret"}}
+
+\* --- poisoned symbols: the variable declared by the (ill-typed) initialisation is stored in a struct member; the
+\* member is assigned again in the same function (member1) or in a SECOND function after it (member2)
+PoisonCells == {[Cell("init", "", s, 0, d, 0) EXCEPT !.v = vv] : s \in {I32, U8, Bool}, d \in {I32, U8}, vv \in {"member1", "member2"}}
+
+\* --- a return value in a function without return type (E330) -----------------------------------------
+VoidCells == {Cell("ret", "", t, 0, <<"void">>, 0) : t \in FT \cup {PTR}}
+
+AuditCells == FormCells \cup PreCells \cup PosCells \cup CalleeCells \cup WordCells \cup LenCells \cup ShapeCells \cup VoidCells
+                  \cup BigLenCells \cup NameCells \cup FlagCells \cup PoisonCells
+
+(***************************************************************************)
+(* The matrix in PARTS.  TLC generates and checks initial states with one  *)
+(* thread; the cells are therefore the SUCCESSORS of one seed state per    *)
+(* part, so that the workers evaluate rule, model and emission of          *)
+(* different parts in parallel.  A cell that belongs to two parts is one   *)
+(* state (emitted once).                                                   *)
+(***************************************************************************)
+Arith5 == {"+", "-", "*", "/", "%"}
+YHalf1 == {"block", "loop", "then", "else"}
+Parts == <<
+    {Cell("bin", op, x[1], x[2], y[1], y[2]) : op \in Arith5, x \in Operand, y \in Operand},
+    {Cell("bin", op, x[1], x[2], y[1], y[2]) : op \in (BinOps \ {"adv"}) \ Arith5, x \in Operand, y \in Operand},
+    {Cell("cmp", op, x[1], x[2], y[1], y[2]) : op \in EqOps, x \in Operand, y \in Operand}
+        \cup {Cell("un", op, x[1], x[2], <<>>, 0) : op \in UnOps, x \in Operand},
+    {Cell("cmp", op, x[1], x[2], y[1], y[2]) : op \in OrdOps, x \in Operand, y \in Operand},
+    {Cell("as", "", x[1], x[2], t, 0) : x \in Operand, t \in CastTargets}
+        \cup {Cell("cast", "", x[1], x[2], t, 0) : x \in Operand, t \in CastTargets},
+    {Cell("assign", "", x[1], x[2], d, kd) : x \in {y \in SrcShapes \X (0..2) : SrcOK("assign", y[1], y[2])}, d \in VarShapes, kd \in 0..1},
+    {Cell("init", "", x[1], x[2], d, 0) : x \in {y \in SrcShapes \X (0..2) : SrcOK("init", y[1], y[2])}, d \in VarShapes \cup {PPTR}}
+        \cup {Cell("const", "", s, 0, d, 0) : s \in PrimT, d \in PrimT}
+        \cup {Cell("elem", "", s, 0, d, 0) : s \in PrimT, d \in PrimT},
+    {Cell("member", "", x[1], x[2], d, 0) : x \in {y \in SrcShapes \X (0..1) : SrcOK("member", y[1], y[2])},
+                                             d \in PrimT \cup {PTR, ARR, STRUCT, WORD}}
+        \cup {Cell("ret", "", x[1], x[2], d, 0) : x \in {y \in SrcShapes \X (0..2) : SrcOK("ret", y[1], y[2])}, d \in RetShapes},
+    {Cell("arg", "", s, ks, d, 0) : s \in SrcShapes, ks \in 0..2, d \in ParamShapes},
+    {Cell("arg2", "", s, ks, d, 0) : s \in VarShapes, ks \in 0..1, d \in ParamShapes}
+        \cup {Cell(k, "", s, 3, d, 0) : k \in {"arg", "arg2"}, s \in {SPTR, PTR, PPTR}, d \in ParamShapes}
+        \cup {Cell("arg2", "", SPTR, ks, d, 0) : ks \in 1..2, d \in ParamShapes}
+        \cup {Cell("argn", "", <<>>, n, <<>>, m) : n \in 0..3, m \in 0..2}
+        \cup NestCells,
+    {cl \in ContextCells : cl.y = "top"},
+    {cl \in ContextCells : cl.y \in YHalf1},
+    {cl \in ContextCells : cl.y \notin YHalf1 \cup {"top"}},
+    PathAssign,
+    {cl \in FormCells : cl.fb = "var"},
+    {cl \in FormCells : cl.fb # "var"},
+    PreCells,
+    PosCells \cup CalleeCells \cup VoidCells,
+    WordCells,
+    LenCells \cup ShapeCells \cup BigLenCells \cup NameCells \cup PoisonCells,
+    FlagCells
+>>
+\* (no definition of the union of all parts: TLC would evaluate it at start-up with one thread -- 55 s for nothing)
+
+Seed(i) == [seed |-> i]
+IsSeed == "seed" \in DOMAIN c
+Init == c \in {Seed(i) : i \in DOMAIN Parts}
+Next == IsSeed /\ c' \in Parts[c.seed]
+
+Agree == IsSeed \/ AgreeOn(c)
+
+\* pok / pcodes: the verdict of the rule on the NEIGHBOUR of the construct (field pre), judged on its own
+Emit == IsSeed \/
+        LET v == Verdict(c)
+            pv == Verdict(PreCell(c.pre))
         IN PrintT(<<"CASE", ToJson([c |-> c, ok |-> v.ok, unc |-> v.unc,
                                     codes |-> SetToSortSeq(v.codes, <), ty |-> v.ty,
+                                    pok |-> pv.ok, pcodes |-> SetToSortSeq(pv.codes, <),
                                     hm |-> HasModel(c), m |-> SetToSortSeq(MCodes(c), <)])>>)
 ===========================================================================
